@@ -69,6 +69,18 @@ CLAIMED = {
          "promotion are reached through C16's GPOS tables once built); a reported packing failure is accepted.",
     technique="TLA+ layout-soundness predicate + permitted-transformation model checked by TLC; exhaustive graph enumeration replayed on dump_table; trace validation of observed layouts",
     design="4/C05"),
+ "C07": dict(
+    category="model_checking",
+    text="ObjIds.tla models the one piece of state concurrent compilations share (the atomic object counter); TLC "
+         "checks on every interleaving that ids are unique and that rank order equals allocation order, refutes a "
+         "negative control, and exports each interleaving as a gap pattern; every pattern is replayed "
+         "deterministically through hook H1b on a catalogue of values (graphs that need duplication and space "
+         "assignment, cmap, name, FontBuilder) and must reproduce the solo bytes; real threads compile the catalogue "
+         "concurrently and their id logs and output hashes are validated by ObjIdsTrace.",
+    note="Trusted: TLC, hook H1b (gap injection is equivalent to interleaving because fetch_add is the only access). "
+         "Hash-order dependence is only sampled (fresh RandomState per map / per process), not enumerated.",
+    technique="TLA+ interleaving model checked by TLC; TLC-generated schedules replayed via an id gap injector; trace validation of real threads",
+    design="4/C07"),
 }
 
 NOT_APPLICABLE = {
